@@ -112,6 +112,17 @@ def check(run):
             if (v in val) != ((v in req) != (v in resp)) or (v in req and v in resp):
                 findings.append({"kind": "opcode-classification", "value": v, "valid": v in val, "request": v in req, "response": v in resp,
                                  "what": "OpCode(%s): valid=%s request=%s response=%s" % (v, v in val, v in req, v in resp)})
+    # version classes over the whole 8-bit domain: OSS = {2,3,4,5}, DSE = {0x41,0x42}, supported = their union, no beta version
+    def vset(m):
+        r = meth.get(("ProtocolVersion", m, None))
+        return None if r is None else set(int(x) for x in r["positive"])
+    oss, dse, sup, beta = vset("IsOss"), vset("IsDse"), vset("IsSupported"), vset("IsBeta")
+    for nm, got, want in (("IsOss", oss, {2, 3, 4, 5}), ("IsDse", dse, {65, 66}), ("IsSupported", sup, {2, 3, 4, 5, 65, 66}), ("IsBeta", beta, set())):
+        if got is None:
+            continue
+        for v in sorted(got ^ want):
+            findings.append({"kind": "version-class", "method": nm, "value": v, "observed": v in got,
+                             "what": "ProtocolVersion(%d).%s() = %s; the specifications define versions 2,3,4,5 (OSS) and 0x41,0x42 (DSE) only" % (v, nm, v in got)})
     # Check* helpers follow the predicates
     chk_pred = {"CheckSupportedProtocolVersion": ("ProtocolVersion", "IsSupported"), "CheckDseProtocolVersion": ("ProtocolVersion", "IsDse"),
                 "CheckValidOpCode": ("OpCode", "IsValid"), "CheckRequestOpCode": ("OpCode", "IsRequest"), "CheckResponseOpCode": ("OpCode", "IsResponse"),
